@@ -93,7 +93,7 @@ def foreign_call(obj, what, kind):
             f = np.array([0.05, 0.07, 0.09, 0.11, 0.14, 0.18, 0.23, 0.3])
             S = np.exp(-0.5 * ((f - 0.11) / 0.03) ** 2) + 0.01
             other = xr.DataArray(S[:, None] * np.ones((1, 4)), dims=("freq", "dir"), coords={"freq": f, "dir": np.arange(4) * 90.0}, name="efth")
-            getattr(other.spec, what)()
+            getattr(other.spec, what)().load()   # the fits are lazy: run them
             return
         da = obj["efth"] if isinstance(obj, xr.Dataset) else obj
         buf = da.variable._data                      # the object's own buffer
@@ -272,7 +272,7 @@ def make_history(args):
         nsteps = max(nsteps, 4)
     elif u0 < 0.2:
         # a curve fit on some other object, then statistics of a calm (all-zero) spectrum, which make numpy warn
-        forced = [("fo", rng.choice(["fit_jonswap", "fit_gaussian"])), ("calm", None), ("obs", rng.choice(["dpspr", "tm01", "swe", "dspr"]))]
+        forced = [("fo", rng.choice(["fit_jonswap", "fit_gaussian"])), ("calm", None), ("obs", rng.choice(["stats_band", "dpspr", "stats_band", "gamma"]))]
         nsteps = max(nsteps, 4)
     elif u0 < 0.3:
         # the object is written to a file between two observations
